@@ -40,8 +40,8 @@ func runC06(c *Ctx, r *Report, tier string) {
 	// 1. gate
 	calls, _ := c.callersOf(cr)
 	for _, cs := range calls {
-		r.Check(cs.Fn == pa, "GATE", c.fname(cs.Fn), "call checkRequired", c.ipos(cs.Call), "called from ParseArgs", "checkRequired called from "+c.fname(cs.Fn))
-		if cs.Fn != pa {
+		r.Check(c.actsFor(cs.Fn, pa), "GATE", c.fname(cs.Fn), "call checkRequired", c.ipos(cs.Call), "called from ParseArgs", "checkRequired called from "+c.fname(cs.Fn))
+		if !c.actsFor(cs.Fn, pa) {
 			continue
 		}
 		c.reqRule(r, "GATE", pa, cs.Call, "call checkRequired", litHas(false, litErrNonNil), "parseState.err == nil", facts)
@@ -308,7 +308,7 @@ func runC06(c *Ctx, r *Report, tier string) {
 	set2 := c.mustFn(r, "(*Option).Set")
 	if isSet != nil && set2 != nil {
 		for _, s := range c.storesTo(isSet) {
-			ok := s.Fn == set2 && c.term(s.Store.Val) == "true"
+			ok := c.actsFor(s.Fn, set2) && c.term(s.Store.Val) == "true"
 			r.Check(ok, "ISSET", c.fname(s.Fn), "store Option.isSet", c.ipos(s.Store), "in Set, constant true", "Option.isSet stored in "+c.fname(s.Fn)+" with value "+c.term(s.Store.Val))
 		}
 		for _, ret := range returnsOf(set2) {
